@@ -293,6 +293,16 @@ pub fn write_cfb(streams: &[CfbStream], layout: &CfbLayout) -> (Vec<u8>, CfbInfo
                     for u in &units {
                         u16le(bytes, *u);
                     }
+                    // a recycled directory slot keeps the tail of a longer old name after the terminator
+                    // (only the terminator and the length field delimit the name)
+                    if layout.spare_fat % 2 == 1 || layout.trailing % 2 == 1 {
+                        u16le(bytes, 0);
+                        for u in "ackup_old".encode_utf16() {
+                            if bytes.len() + 2 <= start + 62 {
+                                u16le(bytes, u);
+                            }
+                        }
+                    }
                     bytes.resize(start + 64, 0);
                     u16le(bytes, (units.len() as u16 + 1) * 2);
                     bytes.push(e.typ);
